@@ -1115,6 +1115,7 @@ func runC09(c *Ctx) {
 	c09Decl(c)      // ---- 2e. type names, parameter lists, struct and filetype declarations (c09decl.go)
 	c09Res(c)       // ---- 2f. stage clauses: src line, using (formatGB), retain (c09res.go)
 	c09Call2(c)     // ---- 2g. full call statements, return, retain, pipeline bodies (c09call2.go)
+	c09Stage(c)     // ---- 2h. whole stage declarations: Stage.format / the grammar's stage production (c09stage.go)
 
 	// ---- 3. formatter monitors ----
 	progSeeds, _ := c08LoadSeeds(c)
